@@ -172,6 +172,13 @@ func (d *DeadlineChan[T]) Recv() (b T, err error) {
 // report (or the blocking select may have picked the error while an item was
 // ready), so look once more: queued data is returned before e.
 func (d *DeadlineChan[T]) recvBuffered(e error) (b T, err error) {
+	if e == io.EOF {
+		// Close publishes closed before it waits for a Send in flight. End of
+		// stream must not be reported while that Send may still enqueue: wait
+		// for it as Close does (Close has cancelled it or is about to).
+		d.m.Lock()
+		d.m.Unlock()
+	}
 	verifYield("dc.recv.repoll")
 	select {
 	case b = <-d.C:
@@ -248,20 +255,18 @@ func (d *DeadlineChan[T]) Cancel(err error) error {
 }
 
 // Close cancels pending calls to Send and Recv. Those calls will return
-// io.EOF rather than os.ErrDeadlineExceeded even after the deadline has expired
+// io.EOF rather than os.ErrDeadlineExceeded even after the deadline has expired.
+// A Send blocked on a full queue holds d.m, so Close publishes closed and
+// cancels first (which releases that Send) and only then waits for d.m:
+// nothing is enqueued after Close has returned.
 func (d *DeadlineChan[T]) Close() error {
-	verifYield("dc.close.lock")
-	d.m.Lock()
-	defer d.m.Unlock()
-
-	verifYield("dc.close.closed")
-	if d.closed.Load() {
+	if !d.closed.CompareAndSwap(false, true) {
 		return io.EOF
 	}
-	verifYield("dc.close.store")
-	d.closed.Store(true)
 	verifYield("dc.close.cancel")
 	d.deadline.Cancel(io.EOF)
+	d.m.Lock()
+	d.m.Unlock()
 	return nil
 }
 
